@@ -21,8 +21,9 @@ Inductive row :=
 | RImplementedBy (uc : bool) (d : cls_d) (out : probe)
 | RExtends (uc : bool) (slot : nat) (hashable member : bool) (out : nat)
 | ROsdGet (uc : bool) (inst : bool) (prov fallback out : probe)
-| RCpbGet (uc : bool) (same_cls inst : bool) (self implements : nat) (out : probe)
+| RCpbGet (uc : bool) (cls_set same_cls inst : bool) (self : nat) (implements : option nat) (out : probe)
 | RHash (uc : bool) (tuple_h h1 h2 : Z)
+| RHashFail (uc : bool) (o1 o2 : nat)
 | RCmp (uc : bool) (a b : xoperand) (rab rba : list N)
 | RDiff (op : nat).
 
@@ -66,14 +67,21 @@ Definition m_extends (uc : bool) (slot : nat) (hashable member : bool) : nat :=
 Definition m_osd (uc : bool) (inst : bool) (prov fallback : probe) : probe :=
   let d := mkOsdD (negb inst) prov fallback fallback in
   if uc then c_OSD_descr_get d else py_osd_get d.
-Definition m_cpb (uc : bool) (same_cls inst : bool) (self implements : nat) : probe :=
-  let d := mkCpbD self true same_cls (negb inst) (Some implements) in
+Definition m_cpb (uc : bool) (cls_set same_cls inst : bool) (self : nat) (implements : option nat) : probe :=
+  let d := mkCpbD self cls_set same_cls (negb inst) implements in
   if uc then c_CPB_descr_get d else py_cpb_get d.
 
 (* ---- hash: two successive hash() calls of an interface whose key hashes to [th] *)
 Definition m_hash (uc : bool) (th : Z) : list (res Z) :=
   if uc then c_hash_run (Ok th) 2 (mkCH true true 0) else py_hash_run (Ok th) 2 (mkPH true true None).
 Definition resZ_eqb := res_eqb Z.eqb.
+(* two successive hash() calls of a bare InterfaceBase whose name cannot be hashed (TypeError) *)
+Definition exc_code (e : exc) : nat :=
+  match e with EAttr => 2 | EType => 3 | ESys => 4 | EOther _ => 5 end.
+Definition m_hash_fail (uc : bool) : list nat :=
+  map (fun r => match r with Ok _ => 1 | Raise e => exc_code e end)
+      (if uc then c_hash_run (Raise EType) 2 (mkCH true true 0)
+       else py_hash_run (Raise EType) 2 (mkPH true true None)).
 
 (* ---- comparison rows *)
 Definition xcode (r : xres) : N := match r with XBool true => 1 | XBool false => 0 | XTypeErr => 2 end%N.
@@ -130,8 +138,10 @@ Definition model_row (uc : bool) (r : row) : bool :=
   | RImplementedBy _ d out => impl_ok (m_implementedBy uc d) out
   | RExtends _ slot hashable member out => Nat.eqb (m_extends uc slot hashable member) out
   | ROsdGet _ inst prov fallback out => probe_eqb (m_osd uc inst prov fallback) out
-  | RCpbGet _ same_cls inst self implements out => probe_eqb (m_cpb uc same_cls inst self implements) out
+  | RCpbGet _ cls_set same_cls inst self implements out =>
+      probe_eqb (m_cpb uc cls_set same_cls inst self implements) out
   | RHash _ th h1 h2 => list_eqb resZ_eqb (m_hash uc th) [Ok h1; Ok h2]
+  | RHashFail _ o1 o2 => lnat_eqb (m_hash_fail uc) [o1; o2]
   | RCmp _ a b rab rba => cmp_ok uc a b rab rba
   | RDiff _ => true
   end.
@@ -139,7 +149,7 @@ Definition model_row (uc : bool) (r : row) : bool :=
 Definition row_uc (r : row) : bool :=
   match r with
   | RProvidedBy uc _ _ _ | RImplementedBy uc _ _ | RExtends uc _ _ _ _ | ROsdGet uc _ _ _ _
-  | RCpbGet uc _ _ _ _ _ | RHash uc _ _ _ | RCmp uc _ _ _ _ => uc
+  | RCpbGet uc _ _ _ _ _ _ | RHash uc _ _ _ | RHashFail uc _ _ | RCmp uc _ _ _ _ => uc
   | RDiff _ => true
   end.
 
